@@ -323,6 +323,7 @@ package mqtt
 //@ ensures[C15] err == nil ==> ref(packet) == ref(buf) && off(packet) == off(buf) && len(packet) == len(buf) - 12
 //@ ensures[C15] err == nil ==> seqNo == buf[len(buf)-12] + buf[len(buf)-11]*256 + buf[len(buf)-10]*65536 + buf[len(buf)-9]*16777216 + buf[len(buf)-8]*4294967296 + buf[len(buf)-7]*1099511627776 + buf[len(buf)-6]*281474976710656 + buf[len(buf)-5]*72057594037927936
 //@ ensures[C15] err != nil ==> packet == nil && seqNo == 0
+//@ ensures[C15,C02,reveal=fnvok,reveal=le64] (err == nil) == fnvok(arr(buf), off(buf), len(buf)) && (err == nil ==> seqNo == le64(arr(buf), off(buf) + len(buf) - 12))
 //@ ensures[C15] forall(k, 0, len(buf), buf[k] == old(buf[k]))
 
 //@ func mqtt.encodeValue -> r
@@ -362,11 +363,14 @@ package mqtt
 //@ loop 1: invariant ref(keys) == ref(old(keys)) && off(keys) >= off(old(keys)) && off(keys) + len(keys) == off(old(keys)) + len(old(keys)) && cap(keys) == cap(old(keys)) - (off(keys) - off(old(keys)))
 //@ loop 1: invariant i >= 1 && (len(keys) >= 1 ==> i <= len(keys)) && (len(old(keys)) > 0 ==> len(keys) > 0)
 //@ loop 1: invariant forall(j, 1, i, j < len(keys) ==> adj(keys[j-1], keys[j]))
+//@ loop 1: invariant forall(j, 0, i, j < len(keys) ==> keys[j] % 16384 == (keys[0] % 16384 + j) % 16384)
 //@ loop 1: invariant off(keys) == off(old(keys)) || !adj(old(keys)[off(keys) - off(old(keys)) - 1], old(keys)[off(keys) - off(old(keys))])
 //@ loop 1: invariant len(*warn) >= old(len(*warn)) && (off(keys) != off(old(keys))) == (len(*warn) > old(len(*warn)))
 //@ ensures[C02,C16] ref(r) == ref(keys) && off(r) >= off(keys) && off(r) + len(r) == off(keys) + len(keys)
 //@ ensures[C02,C16] len(keys) > 0 ==> len(r) > 0
 //@ ensures[C02,C16] forall(j, 1, len(r), adj(r[j-1], r[j]))
+//@ ensures[C02,C16,C17] forall(j, 0, len(r), r[j] % 16384 == (r[0] % 16384 + j) % 16384)
+//@ ensures[C02,C16] forall(j, 0, len(keys), keys[j] == old(keys[j]))
 //@ ensures[C02,C16] off(r) == off(keys) || !adj(keys[off(r) - off(keys) - 1], keys[off(r) - off(keys)])
 //@ ensures[C02,C16] forall(j, 0, len(keys), keys[j] == old(keys[j]))
 //@ ensures[C16] (off(r) != off(keys)) == (len(*warn) > old(len(*warn)))
@@ -386,6 +390,71 @@ package mqtt
 //@ pure
 //@ requires 0 <= i && i < len(*publishReleaseKeys) && 0 <= j && j < len(*publishReleaseKeys)
 //@ ensures[C02,C16] less == (at(*storeOrderPerKey, (*publishReleaseKeys)[i]) < at(*storeOrderPerKey, (*publishReleaseKeys)[j]))
+
+// Config.valid accepts exactly the options that fit a CONNECT packet.
+//@ pred strok(s): len(s) <= 65535 && utf8ok(arr(s), off(s), len(s)) && !hasnul(arr(s), off(s), len(s))
+//@ pred cfgvalid(c): c.Dialer != nil && strok(c.UserName) && len(c.Password) <= 65535 && len(c.Will.Message) <= 65535 && strok(c.Will.Topic) && (c.Will.Message != nil ==> len(c.Will.Topic) > 0)
+//@ func mqtt.(*Config).valid -> err
+//@ pure
+//@ requires c != nil
+//@ ensures[C16,C09] (err == nil) == cfgvalid(c)
+//@ ensures[C16] err != nil ==> !perr(err)
+
+// A record of the store as AdoptSession reads it: checksum-valid (recok), its
+// storage sequence number (le64 of the trailer) and the packet type in its first byte.
+//@ pred recok(p, k): st_has(p, k) && fnvok(st_val(p, k), 0, st_len(p, k))
+//@ pred local(k): k != 0 && (k / 65536) % 2 == 0
+//@ pred pending(p, k, typ): recok(p, k) && st_val(p, k)[0] / 16 == typ
+// Checksum-valid records were written by this package (the property excludes forged
+// ones): they hold a packet, and a PUBREL sits under an exactly-once key.
+//@ pred genuine(p): forall(k, recok(p, k) && local(k) ==> st_len(p, k) >= 13 && (st_val(p, k)[0] / 16 == 6 ==> k / 16384 == 3))
+//@ func mqtt.AdoptSession -> client, warn, fatal
+//@ requires p != nil && c != nil && genuine(p)
+//@ loop 1: modifies st_has(p), warn, storeOrderMax, region("map.map[uint]uint64"), region("map.len"), publishAtLeastOnceKeys, publishExactlyOnceKeys, publishReleaseKeys, elems(publishAtLeastOnceKeys), elems(publishExactlyOnceKeys), elems(publishReleaseKeys), elems(warn)
+//@ loop 1: invariant (ref(publishAtLeastOnceKeys) == 0 || (ref(publishAtLeastOnceKeys) != ref(keys) && ref(publishAtLeastOnceKeys) != ref(publishExactlyOnceKeys) && ref(publishAtLeastOnceKeys) != ref(publishReleaseKeys))) && (ref(publishExactlyOnceKeys) == 0 || (ref(publishExactlyOnceKeys) != ref(keys) && ref(publishExactlyOnceKeys) != ref(publishReleaseKeys))) && (ref(publishReleaseKeys) == 0 || ref(publishReleaseKeys) != ref(keys))
+//@ loop 1: invariant forall(k, st_has(p, k) ==> old(st_has(p, k))) && forall(k, old(recok(p, k)) ==> st_has(p, k))
+//@ loop 1: invariant forall(i, 0, len(publishAtLeastOnceKeys), pending(p, publishAtLeastOnceKeys[i], 3) && publishAtLeastOnceKeys[i] / 16384 == 2 && has(storeOrderPerKey, publishAtLeastOnceKeys[i]))
+//@ loop 1: invariant forall(i, 0, len(publishExactlyOnceKeys), pending(p, publishExactlyOnceKeys[i], 3) && publishExactlyOnceKeys[i] / 16384 == 3 && has(storeOrderPerKey, publishExactlyOnceKeys[i]))
+//@ loop 1: invariant forall(i, 0, len(publishReleaseKeys), pending(p, publishReleaseKeys[i], 6) && publishReleaseKeys[i] / 16384 == 3 && has(storeOrderPerKey, publishReleaseKeys[i]))
+//@ loop 1: invariant forall(k, has(storeOrderPerKey, k) ==> at(storeOrderPerKey, k) == le64(st_val(p, k), st_len(p, k) - 12) && at(storeOrderPerKey, k) <= storeOrderMax)
+//@ loop 1: invariant forall(i, 0, rangeindex + 1, local(keys[i]) && recok(p, keys[i]) ==> has(storeOrderPerKey, keys[i]))
+// each list reaches cleanSequence in storage order: no record precedes one saved before it
+//@ at[C02] call cleanSequence#1: assert forall(j, 1, len(keys), le64(st_val(p, keys[j-1]), st_len(p, keys[j-1]) - 12) <= le64(st_val(p, keys[j]), st_len(p, keys[j]) - 12))
+//@ at[C02] call cleanSequence#2: assert forall(j, 1, len(keys), le64(st_val(p, keys[j-1]), st_len(p, keys[j-1]) - 12) <= le64(st_val(p, keys[j]), st_len(p, keys[j]) - 12))
+//@ at[C02] call cleanSequence#3: assert forall(j, 1, len(keys), le64(st_val(p, keys[j-1]), st_len(p, keys[j-1]) - 12) <= le64(st_val(p, keys[j]), st_len(p, keys[j]) - 12))
+//@ loop 2: modifies chanstate(client.atLeastOnce.queue)
+//@ loop 2: invariant len(client.atLeastOnce.queue) == rangeindex + 1 && rangeindex + 1 <= len(publishAtLeastOnceKeys) && !closed(client.atLeastOnce.queue)
+//@ loop 3: modifies chanstate(client.exactlyOnce.queue)
+//@ loop 3: invariant len(client.exactlyOnce.queue) == rangeindex + 1 && rangeindex + 1 <= len(publishExactlyOnceKeys) && !closed(client.exactlyOnce.queue)
+//@ loop 4: modifies chanstate(client.exactlyOnce.queue)
+//@ loop 4: invariant len(client.exactlyOnce.queue) == len(publishExactlyOnceKeys) + rangeindex + 1 && rangeindex + 1 <= len(publishReleaseKeys) && !closed(client.exactlyOnce.queue)
+// what leaves cleanSequence: list position j holds identifier first + j (modulo the 14-bit space) of its
+// key space, and every key listed has a checksum-valid record of the list's packet type
+//@ at[C16,C02,C17,reveal=win,id=alo_run] call Store#1: assert forall(j, 0, len(publishAtLeastOnceKeys), publishAtLeastOnceKeys[j] == win(publishAtLeastOnceKeys[0] % 16384, j) + 32768 && pending(p, publishAtLeastOnceKeys[j], 3))
+//@ at[C16,C02,C17,reveal=win,id=pub_run] call Store#1: assert forall(j, 0, len(publishExactlyOnceKeys), publishExactlyOnceKeys[j] == win(publishExactlyOnceKeys[0] % 16384, j) + 49152 && pending(p, publishExactlyOnceKeys[j], 3))
+//@ at[C16,C02,C17,reveal=win,id=rel_run] call Store#1: assert forall(j, 0, len(publishReleaseKeys), publishReleaseKeys[j] == win(publishReleaseKeys[0] % 16384, j) + 49152 && pending(p, publishReleaseKeys[j], 6))
+// without a gap the PUBLISH run continues the PUBREL run (modulo the 14-bit space)
+//@ at[C16,C02,C17,reveal=win,by=rel_run] call Store#1: assert len(publishExactlyOnceKeys) != 0 && len(publishReleaseKeys) != 0 ==> publishExactlyOnceKeys[0] % 16384 == (publishReleaseKeys[0] % 16384 + len(publishReleaseKeys)) % 16384
+// the counters installed address exactly the records kept
+//@ at[C16,C02,C17,id=alo_window,by=alo_run] send seqSem#1: assert forall(j, 0, len(keys), keys[j] == win(client.Acked, j) + 32768 && pending(p, keys[j], 3))
+//@ at[C16,C02,C17,id=rel_window,by=rel_run] send seqSem#2: assert forall(j, 0, len(releaseKeys), releaseKeys[j] == win(txs.Completed, j) + 49152 && pending(p, releaseKeys[j], 6))
+//@ at[C16,C02,C17] send seqSem#2: assert len(publishKeys) != 0 ==> txs.Received % 16384 == publishKeys[0] % 16384
+//@ at[C16,C02,C17,reveal=win,id=pub_window,by=pub_run] send seqSem#2: assert forall(j, 0, len(publishKeys), publishKeys[j] == win(txs.Received, j) + 49152 && pending(p, publishKeys[j], 3))
+// the limits that refuse a session are the normalised ones (N9)
+//@ at[C16,C17] call Errorf#4: assert c.AtLeastOnceMax >= 0 && c.AtLeastOnceMax <= 16384
+//@ at[C16,C17] call Errorf#5: assert c.ExactlyOnceMax >= 0 && c.ExactlyOnceMax <= 16384
+//@ ensures[C16] fatal == nil ==> client != nil && rdinv(client)
+//@ ensures[C16,id=fatal_has_cause] fatal != nil ==> client == nil && (perr(fatal) || !old(cfgvalid(c)) || exists(k, old(st_has(p, k)) && local(k)))
+//@ ensures[C17,C02,id=counters_alo] fatal == nil ==> len(client.atLeastOnce.seqSem) == 1 && client.Acked < 16384 && qat(client.atLeastOnce.seqSem, 0).acceptN == client.Acked + len(client.atLeastOnce.queue) && qat(client.atLeastOnce.seqSem, 0).submitN == qat(client.atLeastOnce.seqSem, 0).acceptN && len(client.atLeastOnce.queue) <= cap(client.atLeastOnce.queue) && cap(client.atLeastOnce.queue) <= 16384
+//@ ensures[C17,C02,id=counters_eo] fatal == nil ==> len(client.exactlyOnce.seqSem) == 1 && client.Completed < 16384 && client.Completed <= client.Received && client.Received <= qat(client.exactlyOnce.seqSem, 0).acceptN && qat(client.exactlyOnce.seqSem, 0).acceptN == client.Completed + len(client.exactlyOnce.queue) && qat(client.exactlyOnce.seqSem, 0).submitN == qat(client.exactlyOnce.seqSem, 0).acceptN && len(client.exactlyOnce.queue) <= cap(client.exactlyOnce.queue) && cap(client.exactlyOnce.queue) <= 16384
+// every identifier of the adopted windows has its record, at the stage the counters say (F10, N7);
+// win(a, j) = (a + j) % 16384 is the identifier sequence of resend
+//@ ensures[C16,C02,C17,id=window_alo,by=alo_window] fatal == nil ==> forall(j, 0, len(client.atLeastOnce.queue), pending(p, win(client.Acked, j) + 32768, 3))
+//@ ensures[C16,C02,C17,id=window_rel,by=rel_window] fatal == nil ==> forall(j, 0, client.Received - client.Completed, pending(p, win(client.Completed, j) + 49152, 6))
+//@ ensures[C16,C02,C17,id=window_pub,by=pub_window] fatal == nil ==> forall(j, 0, qat(client.exactlyOnce.seqSem, 0).acceptN - client.Received, pending(p, win(client.Received, j) + 49152, 3))
+// records saved through the adopted client sort after every record present (F2)
+//@ ensures[C02,id=seqno_continues] fatal == nil ==> hastype(client.persistence, *ruggedPersistence) && unbox(client.persistence, *ruggedPersistence).Persistence == p && forall(k, recok(p, k) && local(k) && st_idx(p, k) >= 0 ==> le64(st_val(p, k), st_len(p, k) - 12) <= unbox(client.persistence, *ruggedPersistence).seqNo.v)
+//@ ensures[C16] forall(k, st_has(p, k) ==> old(st_has(p, k))) && forall(k, old(recok(p, k)) ==> st_has(p, k))
 
 // FileSystem store, relative to the POSIX model in /verif/contracts/stdlib.spec.
 // The file of a key and its spool file are distinct names.
@@ -628,6 +697,9 @@ package mqtt
 // newClient: limits normalised into 0..16384, queue capacity = limit, offline start state.
 //@ func mqtt.newClient -> r
 //@ requires config != nil
+//@ modifies config.ReconnectWaitMin, config.ReconnectWaitMax, config.AtLeastOnceMax, config.ExactlyOnceMax
+//@ ensures[C17] config.AtLeastOnceMax == r.AtLeastOnceMax && config.ExactlyOnceMax == r.ExactlyOnceMax
+//@ ensures[C17] !closed(r.atLeastOnce.queue) && !closed(r.exactlyOnce.queue)
 //@ ensures[C17] r.AtLeastOnceMax == ite(old(config.AtLeastOnceMax) < 0 || old(config.AtLeastOnceMax) > 16383, 16384, old(config.AtLeastOnceMax)) && cap(r.atLeastOnce.queue) == r.AtLeastOnceMax && len(r.atLeastOnce.queue) == 0
 //@ ensures[C17] r.ExactlyOnceMax == ite(old(config.ExactlyOnceMax) < 0 || old(config.ExactlyOnceMax) > 16383, 16384, old(config.ExactlyOnceMax)) && cap(r.exactlyOnce.queue) == r.ExactlyOnceMax && len(r.exactlyOnce.queue) == 0
 //@ ensures[C17,C02] r.Acked == 0 && r.Received == 0 && r.Completed == 0 && len(r.atLeastOnce.seqSem) == 1 && qat(r.atLeastOnce.seqSem, 0).acceptN == 0 && qat(r.atLeastOnce.seqSem, 0).submitN == 0 && len(r.exactlyOnce.seqSem) == 1 && qat(r.exactlyOnce.seqSem, 0).acceptN == 0 && qat(r.exactlyOnce.seqSem, 0).submitN == 0
